@@ -1,7 +1,7 @@
 """C16 — custom schema types behave like built-ins in every position."""
 from .. import conforms, encode, model, rebuild, runner, scripted_random as SR, sexp, valcases, valcorr, gen_value
 from ..common import d42  # noqa: F401
-from d42 import substitute, validate
+from d42 import optional, schema, substitute, validate
 from d42.representation import Representor
 
 MODULE = "D42.Props.C16Erase"
@@ -30,6 +30,10 @@ def err_key(e, I):
 
 def run(ctx):
     runner.prove(ctx, MODULE, THEOREMS, FILES)
+    try:
+        directed_positions(ctx)
+    except Exception as e:  # noqa: BLE001  (the fixed family could not even be declared on the tree under test)
+        ctx.count("directed_positions_failed:" + type(e).__name__)
     batch = valcases.schema_batch(ctx, ctx.n(70, 500), customs=False)
     cases = []
     for s, w in batch:
@@ -123,6 +127,64 @@ def run(ctx):
     ctx.cov["corr_disagreements"] = len(dis)
     for s, w in batch[:3]:
         ctx.sample({"schema": repr(s), "witness": repr(w)})
+
+
+def directed_positions(ctx):
+    """every built-in leaf kind x every position the property lists (root, list element, typed list, dict value, any
+    alternative, alias target, alias of a union, depth 3), plain against the same tree with the leaf wrapped in a forwarding
+    custom type: validation errors+paths, printed form, substitution outcome/result; values = conforming and not"""
+    import datetime as _dt
+    import uuid as _uuid
+    from .. import custom
+    u4 = _uuid.UUID("0f0e0d0c-0b0a-4908-8706-050403020100")
+    leaves = [(schema.none, [None, 0]), (schema.bool, [True, 1]), (schema.int, [5, True, "5"]), (schema.int.min(3), [5, 1]),
+              (schema.float, [1.5, 1]), (schema.str, ["s", b"s"]), (schema.str.len(1), ["s", ""]), (schema.bytes, [b"x", "x"]),
+              (schema.uuid4, [u4, str(u4)]), (schema.datetime, [_dt.datetime(2024, 2, 29, 12, 30, 15), _dt.date(2024, 2, 29), "2024"]),
+              (schema.date, [_dt.date(2024, 2, 29), _dt.datetime(2024, 2, 29, 1, 2, 3)]), (schema.list(schema.int), [[1], ["a"]]),
+              (schema.dict({"a": schema.int}), [{"a": 1}, {"a": "x"}, {}])]
+    positions = [
+        ("root", lambda t: t, lambda v: v),
+        ("list element", lambda t: schema.list([schema.int, t]), lambda v: [1, v]),
+        ("typed list", lambda t: schema.list(t), lambda v: [v, v]),
+        ("dict value", lambda t: schema.dict({"k": t, optional("o"): schema.int}), lambda v: {"k": v}),
+        ("any alternative", lambda t: schema.any(t, schema.none), lambda v: v),
+        ("alias target", lambda t: schema.alias("A", t), lambda v: v),
+        ("alias of union", lambda t: schema.alias("A", t | schema.none), lambda v: v),
+        ("depth 3", lambda t: schema.dict({"d": schema.list([..., schema.any(schema.dict({"x": t}), schema.str)])}),
+         lambda v: {"d": ["s", {"x": v}]}),
+    ]
+    for leaf, lvals in leaves:
+        for pname, mk, mv in positions:
+            try:
+                s, ws = mk(leaf), mk(custom.wrap(leaf))
+            except Exception:  # noqa: BLE001
+                ctx.count("directed_positions_not_declarable")
+                continue
+            info = dict(plain=repr(s), position=pname, wrapped_nodes=1)
+            if s.__accept__(R, indent=0) != ws.__accept__(R, indent=0):
+                ctx.violation("printed form differs when sub-schemas are wrapped in a forwarding custom type", **info)
+            for lv in lvals:
+                v = mv(lv)
+                ctx.count("directed_position_cases")
+                I = encode.Interner()
+                try:
+                    e1 = sorted(err_key(e, I) for e in validate(s, v).get_errors())
+                    e2 = sorted(err_key(e, I) for e in validate(ws, v).get_errors())
+                    e2 = strip_custom([x.replace("(custom ", "(custom_ ") for x in e2])
+                    if e1 != e2:
+                        ctx.violation("validation errors/paths differ when sub-schemas are wrapped", value=repr(v),
+                                      plain_errors=e1[:4], wrapped_errors=e2[:4], **info)
+                except encode.Unencodable:
+                    pass
+                except Exception as e:  # noqa: BLE001
+                    ctx.violation("validate raised on the wrapped tree: " + type(e).__name__, value=repr(v), **info)
+                r1, r2 = try_subst(s, v), try_subst(ws, v)
+                if r1[0] != r2[0] or (r1[0] == "exc" and r1[1] != r2[1]):
+                    ctx.violation("substitution outcome differs when sub-schemas are wrapped", value=repr(v),
+                                  plain_outcome=repr(r1), wrapped_outcome=repr(r2), **info)
+                elif r1[0] == "ok" and repr(r2[1]) != repr(r1[1]):
+                    ctx.violation("substitution result differs (after erasing wrappers) from the plain result",
+                                  value=repr(v), plain_result=repr(r1[1]), wrapped_result=repr(r2[1]), **info)
 
 
 def strip_custom(keys):
